@@ -30,9 +30,11 @@ const simTicks = 20
 
 // fields that are generation-time scratch state, not part of the machine description. Each entry is
 // (re)assigned by the generators before anything reads it:
-//   Arch.Conproc.CpID         set to the processor index by Bondmachine.Write_verilog (pkg/bondmachine/verilog.go:83)
-//   Arch.Conproc.SharedHDLOps set from the running list by Bondmachine.Write_verilog (verilog.go:84), appended by flopoco/fxp generators
-//   Arch.Tag                  set from CpID at the top of Conproc.Write_verilog (pkg/procbuilder/conproc.go:287)
+//
+//	Arch.Conproc.CpID         set to the processor index by Bondmachine.Write_verilog (pkg/bondmachine/verilog.go:83)
+//	Arch.Conproc.SharedHDLOps set from the running list by Bondmachine.Write_verilog (verilog.go:84), appended by flopoco/fxp generators
+//	Arch.Tag                  set from CpID at the top of Conproc.Write_verilog (pkg/procbuilder/conproc.go:287)
+//
 // The simulator uses procbuilder.VM.CpID (set in pkg/bondmachine/vm.go:194), not Conproc.CpID.
 // The check does not trust this list blindly: for each entry it measures that changing the field
 // changes neither the rendered Verilog nor the simulation (see fieldCase).
